@@ -176,6 +176,12 @@ func (x *Explorer) StructKeyAtEntry(v ssa.Value) string {
 // SourceKey is KeyOf, except that for a phi it returns the key of the operand
 // that flowed into it on this path.
 func (x *Explorer) SourceKey(v ssa.Value, st *State) string {
+	// the result of an inlined helper: the helper's own value that was returned
+	if _, isPhi := v.(*ssa.Phi); !isPhi {
+		if o, ok := st.phiSrc[x.key(v, st)]; ok {
+			return o
+		}
+	}
 	for i := 0; i < 4; i++ {
 		p, ok := v.(*ssa.Phi)
 		if !ok {
@@ -200,7 +206,7 @@ var helperIDs = map[*ssa.Function]int{}
 // tN_hK inside helper K inlined into it.
 func (x *Explorer) rn(v ssa.Value) string {
 	f := v.Parent()
-	if f == nil || f == x.Fn {
+	if f == nil || f == x.Fn && !x.P.Transparent(f) {
 		return v.Name()
 	}
 	id, ok := helperIDs[f]
@@ -719,6 +725,21 @@ func (x *Explorer) Truth(v ssa.Value, st *State) (val, known bool) {
 			return f, true
 		}
 	}
+	// `for range s` over a nil slice or map has no iteration: the lowered
+	// loop test `index < len(s)` is false
+	if bo, ok := v.(*ssa.BinOp); ok && bo.Op == token.LSS && bo.Block() != nil && bo.Block().Comment == "rangeindex.loop" {
+		if lc, ok := bo.Y.(*ssa.Call); ok {
+			if bi, ok := lc.Call.Value.(*ssa.Builtin); ok && bi.Name() == "len" && len(lc.Call.Args) == 1 {
+				ak := x.key(lc.Call.Args[0], st)
+				if ak == "nil" {
+					return false, true
+				}
+				if isNil, known := truthOfKey(eqKey(ak, "nil"), st); known && isNil {
+					return false, true
+				}
+			}
+		}
+	}
 	return false, false
 }
 
@@ -737,6 +758,15 @@ func truthOfKey(k string, st *State) (val, known bool) {
 	}
 	if f, ok := st.fact(k); ok {
 		return res(f)
+	}
+	// an error predicate (os.IsNotExist, errors.Is ...) is false for a nil error
+	if arg, ok := errPredArg(k); ok {
+		if arg == "nil" {
+			return res(false)
+		}
+		if isNil, known := truthOfKey(eqKey(arg, "nil"), st); known && isNil {
+			return res(false)
+		}
 	}
 	// (a==b) with decidable operands
 	if strings.HasPrefix(k, "(") && strings.HasSuffix(k, ")") {
@@ -757,6 +787,35 @@ func truthOfKey(k string, st *State) (val, known bool) {
 		}
 	}
 	return false, false
+}
+
+var errPreds = []string{"pure:os.IsNotExist(", "pure:os.IsExist(", "pure:os.IsPermission(", "pure:os.IsTimeout(", "pure:errors.Is(", "pure:github.com/pkg/errors.Is("}
+
+// errPredArg: k is pure:<error predicate>(ERR[,...]); returns the key of ERR.
+func errPredArg(k string) (string, bool) {
+	if !strings.HasPrefix(k, "pure:") || !strings.HasSuffix(k, ")") {
+		return "", false
+	}
+	for _, p := range errPreds {
+		if strings.HasPrefix(k, p) {
+			inner := k[len(p) : len(k)-1]
+			depth := 0
+			for i := 0; i < len(inner); i++ {
+				switch inner[i] {
+				case '(':
+					depth++
+				case ')':
+					depth--
+				case ',':
+					if depth == 0 {
+						return inner[:i], true
+					}
+				}
+			}
+			return inner, true
+		}
+	}
+	return "", false
 }
 
 func splitEq(k string) (a, b string, ok bool) {
@@ -1006,6 +1065,7 @@ func (x *Explorer) Run() []Hit {
 					ns := st
 					hid := "_h" + itoa(helperIDs[fr.fn])
 					inHelper := func(k string) bool { return hasHelperReg(k, hid) }
+					origin := map[string]string{}
 					if cv := fr.call.Value(); cv != nil {
 						res := func(r ssa.Value, name string) string {
 							k := x.key(r, st)
@@ -1013,6 +1073,11 @@ func (x *Explorer) Run() []Hit {
 								return k
 							}
 							if len(k) <= maxKeyLen {
+								if o, ok := st.phiSrc[k]; ok {
+									origin[name] = o
+								} else {
+									origin[name] = k
+								}
 								for _, src := range []map[string]bool{st.pin, st.Facts} {
 									for fk, fv := range src {
 										if mentions(fk, k) {
@@ -1069,6 +1134,9 @@ func (x *Explorer) Run() []Hit {
 						if bad {
 							delete(ns.tuple, r)
 						}
+					}
+					for r, o := range origin {
+						ns.phiSrc[r] = o
 					}
 					work = append(work, workItem{block: fr.ret, start: fr.idx, st: ns, trace: it.trace, frames: it.frames[:len(it.frames)-1]})
 				}
@@ -1280,7 +1348,11 @@ func (x *Explorer) enterBlock(b, pred *ssa.BasicBlock, st *State) {
 		}
 	}
 	for r := range st.phiSrc {
-		if db, ok := x.regBlock[r]; ok && db.Parent() == b.Parent() && db != b && !db.Dominates(b) {
+		base := r
+		if i := strings.IndexByte(base, '#'); i >= 0 {
+			base = base[:i]
+		}
+		if db, ok := x.regBlock[base]; ok && db.Parent() == b.Parent() && (db == b || !db.Dominates(b)) {
 			delete(st.phiSrc, r)
 		}
 	}
@@ -1454,6 +1526,12 @@ func (x *Explorer) branch(i *ssa.If, b *ssa.BasicBlock, st *State, trace []int, 
 		if record {
 			ns = st.clone()
 			ns.Facts[base] = truth != neg
+			if arg, ok := errPredArg(base); ok && truth != neg && arg != "nil" {
+				// the predicate holds: the error is not nil
+				if ek := eqKey(arg, "nil"); len(ek) <= maxKeyLen && !strings.Contains(ek, "*") {
+					ns.Facts[ek] = false
+				}
+			}
 			if _, isInstr := i.Cond.(ssa.Instruction); isInstr && strings.Contains(base, "*") {
 				ns.Facts["r:"+x.rn(i.Cond)] = truth
 			}
